@@ -1100,6 +1100,15 @@ pub mod implementations {
 
         let arg = arg.move_out_of_heap_primitive()?;
 
+        // a class declared inside a function is declared again each time the function runs:
+        // the same class is already exported, only the frame needs the binding
+        if let Some(existing) = ctx.load_self_export(export_name) {
+            if *existing.primitive() == arg {
+                ctx.ref_variable(Cow::Owned(name.to_owned()), existing);
+                return Ok(());
+            }
+        }
+
         let variable = PrimitiveFlagsPair::new(arg, VariableFlags(READ_ONLY));
 
         ctx.register_export(export_name.to_owned(), variable.clone())?;
